@@ -244,8 +244,14 @@ def run_proof_tier(prop, contract_modules, source_modules, classify=None):
     if failed_helpers or bad_sites:
         redo = [c.name for c in contracts
                 if set(uses.get(c.name, [])) & set(failed_helpers) or c.name in bad_sites]
-        uses2 = {k: [x for x in v if x not in failed_helpers and x not in bad_sites.get(k, ())]
-                 for k, v in uses.items()}
+        # a function described by several contracts is inlined as a whole: applying only those of its contracts that are
+        # left would be a weaker description of the callee, and a `sat` obtained under it says nothing about the code
+        def _fn(x):
+            return (by_q[x].module, by_q[x].qualname) if x in by_q else x
+        uses2 = {}
+        for k, v in uses.items():
+            gone = {_fn(x) for x in v if x in failed_helpers or x in bad_sites.get(k, ())}
+            uses2[k] = [x for x in v if _fn(x) not in gone]
         failed_helpers = sorted(set(failed_helpers) | {x for v in bad_sites.values() for x in v})
         if redo:
             res2 = driver.run_contracts(world, contracts, uses2, mode='modular', only=redo)
